@@ -216,7 +216,8 @@ def tlc_jobs(chk, thorough):
         except Exception as e:           # re-raised in the main thread
             errs.append((name, e))
     cfg = os.path.join(vlib.scratch(), "Gen_KeyOrder.cfg")
-    open(cfg, "w").write("CONSTANT Sel = {0,1,2,3,4,5,6,7,8,9,10}\nSPECIFICATION Spec\nCHECK_DEADLOCK FALSE\n")
+    open(cfg, "w").write("CONSTANTS Sel = {0,1,2,3,4,5,6,7,8,9,10,11}  Seed = %d  RandN = %d\nSPECIFICATION Spec\nCHECK_DEADLOCK FALSE\n"
+                         % (chk.seed % 997, 100 if thorough else 12))
     ths = [threading.Thread(target=job, args=("order", lambda: vlib.tlc_emit("MC_KeyOrder.tla", cfg, timeout=1500, workers=8))),
            threading.Thread(target=job, args=("bits", lambda: vlib.run_tlc("KeyBits.tla", os.path.join(vlib.SPEC, "MC_KeyBits.cfg"), workers=4, timeout=1500))),
            threading.Thread(target=job, args=("bits_kf", lambda: vlib.run_tlc("KeyBits.tla", os.path.join(vlib.SPEC, "MC_KeyBits_kf.cfg"), workers=2, timeout=900,
@@ -252,9 +253,10 @@ def run(chk):
     t2 = [v for v in vals if v["k"] == "t2"]
     t3 = [v for v in vals if v["k"] == "t3"]
     tc = [v for v in vals if v["k"] == "tc"]
+    rps = sorted([v for v in vals if v["k"] == "rp"], key=lambda v: v["i"])
     decodable = set(next(v for v in vals if v["k"] == "prefixes")["decodable"])
     N = len(pts)
-    if N < 150 or len(t2) < 300 or len(t3) < 300 or len(tc) < 100:
+    if N < 150 or len(t2) < 300 or len(t3) < 300 or len(tc) < 100 or len(rps) < 50:
         raise vlib.ToolError("TLC emitted too little: %d points, %d 2-tuples, %d 3-tuples" % (N, len(t2), len(t3)))
     if selftest == 1:                                   # flip one oracle clause: text "a" now sorts after "b"
         ia = next(i for i, q in enumerate(pts) if q["v"]["t"] == "text" and q["v"]["p"] == [97])
@@ -263,6 +265,7 @@ def run(chk):
             pts[a]["cmp"][b] = c; pts[a]["cmpt"][b] = c
     # ------------------------------------------------------------------ harness
     cases = [{"id": "p%d" % q["i"], "k": "pt", "v": q["v"]} for q in pts]
+    cases += [{"id": "r%d" % q["i"], "k": "pt", "v": q["v"]} for q in rps]
     cases += [{"id": "t2:%d:%d" % tuple(x["ix"]), "k": "row", "cols": x["cols"]} for x in t2]
     cases += [{"id": "t3:%d:%d:%d" % tuple(x["ix"]), "k": "row", "cols": x["cols"]} for x in t3]
     cases += [{"id": "tc:%d:%d" % tuple(x["ix"]), "k": "row", "cols": x["cols"]} for x in tc]
@@ -282,75 +285,76 @@ def run(chk):
         sig_counts[sig] = sig_counts.get(sig, 0) + 1
         chk.classify(sig, rep)
 
-    # ---- single values: encode / decode
     single_decode_failed = set()
-    for q in pts:
-        r, v = res["p%d" % q["i"]], q["v"]
-        if "panic" in r and "enc" not in r:
-            report("encode:panic:" + vclass(v), {"value": v, "shown": show(v), "panic": r["panic"]})
-            continue
-        n = len(r["enc"]) // 2
-        if not r["appended"]:
-            report("encode:not_append_only:" + vclass(v), {"value": v, "shown": show(v)})
-        if r["enc_value"] is not None and r["enc_value"] != r["enc"]:
-            report("encode_value:differs_from_encode_fn:" + vclass(v), {"value": v, "shown": show(v), "encode_fn": r["enc"], "encode_value": r["enc_value"]})
-        for which, cons in (("dec", "consumed"), ("dec_tail", "consumed_tail")):
-            d = r[which]
-            what = None
-            if "panic" in d:
-                what = "panic"
-            elif "err" in d:
-                what = "error"
-            elif d not in (q["canon"], q["canonz"]):
-                what = "value"
-            elif r[cons] != n:
-                what = "consumed"
-            if what:
-                stats["decode_divergences"] += 1
-                single_decode_failed.add(json.dumps(v, sort_keys=True))
-                leaf = diffleaf(q["canon"], d) if what == "value" else v
-                report("decode:%s:%s" % (what, vclass(leaf)), {"value": v, "shown": show(v), "key": r["enc"], "decoded": d, "consumed": r[cons], "key_len": n,
-                                                            "expected": q["canon"], "with_tail": which == "dec_tail"})
-                break
-        pp = r["prefix_probe"]
-        stats["truncated_prefixes_probed"] += pp["ok"] + pp["err"] + pp["panic"] + pp["overread"]
-        if pp["panic"] or pp["overread"]:
-            report("decode:%s_on_truncated_key:%s" % ("panic" if pp["panic"] else "overread", v["t"]), {"value": v, "shown": show(v), "key": r["enc"], "probe": pp})
-    # ---- all pairs
-    for a in range(N):
-        ra, qa = res["p%d" % pts[a]["i"]], pts[a]
-        if "enc" not in ra:
-            continue
-        ka = bytes.fromhex(ra["enc"])
-        for b in range(N):
-            if a == b:
+    for pfx, fam in (("p", pts), ("r", rps)):
+        # ---- single values: encode / decode
+        for q in fam:
+            r, v = res[pfx + "%d" % q["i"]], q["v"]
+            if "panic" in r and "enc" not in r:
+                report("encode:panic:" + vclass(v), {"value": v, "shown": show(v), "panic": r["panic"]})
                 continue
-            rb, qb = res["p%d" % pts[b]["i"]], pts[b]
-            if "enc" not in rb:
+            n = len(r["enc"]) // 2
+            if not r["appended"]:
+                report("encode:not_append_only:" + vclass(v), {"value": v, "shown": show(v)})
+            if r["enc_value"] is not None and r["enc_value"] != r["enc"]:
+                report("encode_value:differs_from_encode_fn:" + vclass(v), {"value": v, "shown": show(v), "encode_fn": r["enc"], "encode_value": r["enc_value"]})
+            for which, cons in (("dec", "consumed"), ("dec_tail", "consumed_tail")):
+                d = r[which]
+                what = None
+                if "panic" in d:
+                    what = "panic"
+                elif "err" in d:
+                    what = "error"
+                elif d not in (q["canon"], q["canonz"]):
+                    what = "value"
+                elif r[cons] != n:
+                    what = "consumed"
+                if what:
+                    stats["decode_divergences"] += 1
+                    single_decode_failed.add(json.dumps(v, sort_keys=True))
+                    leaf = diffleaf(q["canon"], d) if what == "value" else v
+                    report("decode:%s:%s" % (what, vclass(leaf)), {"value": v, "shown": show(v), "key": r["enc"], "decoded": d, "consumed": r[cons], "key_len": n,
+                                                                "expected": q["canon"], "with_tail": which == "dec_tail"})
+                    break
+            pp = r["prefix_probe"]
+            stats["truncated_prefixes_probed"] += pp["ok"] + pp["err"] + pp["panic"] + pp["overread"]
+            if pp["panic"] or pp["overread"]:
+                report("decode:%s_on_truncated_key:%s" % ("panic" if pp["panic"] else "overread", v["t"]), {"value": v, "shown": show(v), "key": r["enc"], "probe": pp})
+        # ---- all pairs
+        for a in range(len(fam)):
+            ra, qa = res[pfx + "%d" % fam[a]["i"]], fam[a]
+            if "enc" not in ra:
                 continue
-            kb = bytes.fromhex(rb["enc"])
-            c = bcmp(ka, kb)
-            if qa["v"]["t"] != qb["v"]["t"] and {qa["v"]["t"], qb["v"]["t"]} == {"int", "float"} and qa["cmp"][b] != 0 \
-                    and vclass(qa["v"]).split(".")[1][:3] == vclass(qb["v"]).split(".")[1][:3]:
-                stats["int_float_same_sign_pairs"] += 1
-            if c == 0 and not qa["same"][b]:
-                stats["collisions"] += 1
-                if a < b:
-                    report("distinct:same_key:%s~%s" % tuple(sorted((vclass(qa["v"]), vclass(qb["v"])))),
-                           {"x": qa["v"], "y": qb["v"], "shown": [show(qa["v"]), show(qb["v"])], "key": ra["enc"]})
-                continue
-            if qa["open"][b]:
-                stats["pairs_open"] += 1
-                continue
-            stats["pairs_judged"] += 1
-            if qa["cmp"][b] == 0:
-                stats["pairs_equal_expected"] += 1
-            if c not in (qa["cmp"][b], qa["cmpt"][b]):
-                stats["order_divergences"] += 1
-                if a < b:
-                    report(order_sig("order", qa["v"], qb["v"], qa["cmp"][b]),
-                           {"x": qa["v"], "y": qb["v"], "shown": [show(qa["v"]), show(qb["v"])], "expected_cmp": qa["cmp"][b], "key_cmp": c,
-                            "key_x": ra["enc"], "key_y": rb["enc"]})
+            ka = bytes.fromhex(ra["enc"])
+            for b in range(len(fam)):
+                if a == b:
+                    continue
+                rb, qb = res[pfx + "%d" % fam[b]["i"]], fam[b]
+                if "enc" not in rb:
+                    continue
+                kb = bytes.fromhex(rb["enc"])
+                c = bcmp(ka, kb)
+                if qa["v"]["t"] != qb["v"]["t"] and {qa["v"]["t"], qb["v"]["t"]} == {"int", "float"} and qa["cmp"][b] != 0 \
+                        and vclass(qa["v"]).split(".")[1][:3] == vclass(qb["v"]).split(".")[1][:3]:
+                    stats["int_float_same_sign_pairs"] += 1
+                if c == 0 and not qa["same"][b]:
+                    stats["collisions"] += 1
+                    if a < b:
+                        report("distinct:same_key:%s~%s" % tuple(sorted((vclass(qa["v"]), vclass(qb["v"])))),
+                               {"x": qa["v"], "y": qb["v"], "shown": [show(qa["v"]), show(qb["v"])], "key": ra["enc"]})
+                    continue
+                if qa["open"][b]:
+                    stats["pairs_open"] += 1
+                    continue
+                stats["pairs_judged"] += 1
+                if qa["cmp"][b] == 0:
+                    stats["pairs_equal_expected"] += 1
+                if c not in (qa["cmp"][b], qa["cmpt"][b]):
+                    stats["order_divergences"] += 1
+                    if a < b:
+                        report(order_sig("order", qa["v"], qb["v"], qa["cmp"][b]),
+                               {"x": qa["v"], "y": qb["v"], "shown": [show(qa["v"]), show(qb["v"])], "expected_cmp": qa["cmp"][b], "key_cmp": c,
+                                "key_x": ra["enc"], "key_y": rb["enc"]})
     # ---- the Value::encode_to_key front end (types/value.rs), judged by the same oracle where it applies
     tv = [(i, bytes.fromhex(res["p%d" % q["i"]]["enc_tv"])) for i, q in enumerate(pts) if res["p%d" % q["i"]].get("enc_tv") is not None]
     tv_differs = sorted({pts[i]["v"]["t"] for i, k in tv if k.hex() != res["p%d" % pts[i]["i"]]["enc"]})
@@ -413,10 +417,10 @@ def run(chk):
     nontrivial = sum(1 for q in pts if q["v"]["t"] != "null")
     chk.cov = {
         "evaluations": stats["pairs_judged"] + stats["tuple_pairs_judged"] + N + stats["truncated_prefixes_probed"] + stats["first_bytes_probed"] + sql_stats["rows_checked"],
-        "distinct_nontrivial": nontrivial + len(t2) + len(t3) + len(tc),
+        "distinct_nontrivial": nontrivial + len({json.dumps(q["v"], sort_keys=True) for q in rps}) + len(t2) + len(t3) + len(tc),
         "rule": "a case is a point or a composite row of MC_KeyOrder.tla (all distinct by construction, counted once each; NULL alone is trivial); "
                 "every ordered pair of points and every pair of equal-arity rows is compared",
-        "points": N, "value_kinds": tags, "tuples2": len(t2), "tuples3": len(t3), "container_rows": len(tc), **stats,
+        "points": N, "seeded_points": len(rps), "value_kinds": tags, "tuples2": len(t2), "tuples3": len(t3), "container_rows": len(tc), **stats,
         "oracle_meta_checks": ["AllWF", "NonVacuous", "ChainOK", "EqualOK", "RankOK", "RefineOK", "TupRankOK"],
         "bit_trick_model": {"states": bits["stats"].get("distinct"), "invariants": ["MasksAreXor", "IntOrderOK", "IntRoundTrip", "FlipOrderOK", "FlipRoundTrip", "FloatOrderOK",
                             "FloatRoundTrip", "IntFloatOK", "VecOrderOKExceptNegZero", "VecRoundTripExcept"], "violated": bits["violated"]},
